@@ -224,7 +224,30 @@ func main() {
 				}
 				return true
 			})
+			// "held for the whole body" = Lock and the deferred Unlock are statements of the body's top level (a Lock under an `if` protects nothing on the other branch)
+			topLock, topDefer := map[string]bool{}, map[string]bool{}
+			for _, st := range fd.Body.List {
+				switch x := st.(type) {
+				case *ast.ExprStmt:
+					if ce, ok := x.X.(*ast.CallExpr); ok {
+						if se, ok := ce.Fun.(*ast.SelectorExpr); ok && se.Sel.Name == "Lock" {
+							if id, ok := se.X.(*ast.Ident); ok {
+								topLock[id.Name] = true
+							}
+						}
+					}
+				case *ast.DeferStmt:
+					if se, ok := x.Call.Fun.(*ast.SelectorExpr); ok && se.Sel.Name == "Unlock" {
+						if id, ok := se.X.(*ast.Ident); ok {
+							topDefer[id.Name] = true
+						}
+					}
+				}
+			}
 			for m := range locked {
+				if !topLock[m] || !topDefer[m] {
+					continue
+				}
 				if unlockedDefer[m] {
 					if _, ok := pkgVars[pkg][m]; ok {
 						F.holds[pkg+"."+m] = true
